@@ -18,10 +18,10 @@ import inspect
 import os
 import sys
 from fractions import Fraction
-from .sorts import (Int, Real, Float, Bool, Str, CSet, Ballot, Profile, Seq, Opt, Dict, Tup, Obj, NoneS, Fn, StateRef, TBDictS)  # noqa: F401
+from .sorts import (Int, Real, Float, Bool, Str, CSet, Ballot, Profile, Seq, Opt, Dict, Tup, Obj, NoneS, Fn, StateRef, TBDictS, BDict)  # noqa: F401
 
 __all__ = ["contract", "spec", "REGISTRY", "Int", "Real", "Float", "Bool", "Str", "CSet", "Ballot", "Profile", "Seq",
-           "Opt", "Dict", "Tup", "Obj", "NoneS", "Fn", "StateRef", "TBDictS", "implies", "Fraction", "lemma", "floor", "div", "dsum", "reversed_seq", "tb_value", "the"]
+           "Opt", "Dict", "Tup", "Obj", "NoneS", "Fn", "StateRef", "TBDictS", "BDict", "bd_keys", "bd_vals", "implies", "Fraction", "lemma", "floor", "div", "dsum", "reversed_seq", "tb_value", "the"]
 
 
 def implies(a, b):
@@ -31,6 +31,14 @@ def implies(a, b):
 def floor(x):
     import math
     return math.floor(x)
+
+
+def bd_keys(d):
+    return tuple(d.keys())
+
+
+def bd_vals(d):
+    return tuple(d.values())
 
 
 def the(s):
@@ -294,14 +302,16 @@ def spec(fn=None, *, opaque=False):
     return deco(fn) if fn is not None else deco
 
 
-def lemma(fn=None, *, induct=None, hint=None, unfold=2):
+def lemma(fn=None, *, induct=None, hint=None, unfold=2, reveal=()):
     """an SMT lemma: the body returns a formula valid for all arguments (sorts from the
     annotations).  Proved once per run, by induction on the Int parameter `induct` when given
     (base: induct <= 0; step: the formula at induct-1 with the other arguments unchanged is the
-    hypothesis).  A call of a lemma inside a `hint_*` clause instantiates it."""
+    hypothesis).  A call of a lemma inside a `hint_*` clause instantiates it.  `reveal` names opaque spec
+    functions whose definition is unfolded inside the proof of this lemma (only)."""
     def deco(f):
         info = SpecInfo(f)
         info.is_lemma = True
+        info.reveal = tuple(reveal)
         info.induct = induct
         info.unfold = unfold
         REGISTRY.specs[f.__name__] = info
